@@ -361,3 +361,32 @@ Example C05_race_nonvacuous : forall (p : bytes) (h0 h1 h2 reg0 : bool),
   let c := race_run (race_init p h0 h1 h2 reg0) [true; true; false; false] in
   c_a c = PDone /\ c_b c = PDone.
 Proof. exact regist_race_finishes. Qed.
+
+(* ---------------------------------------------------------------------------------------------------------
+   Consumer ids (Model/C05Cid.v: media.NewCID with the 32-bit wrap written out).  A stream files a consumer under the
+   type bits of its id and StopConsume / Count / Infos look there, so "consumer and stream counts always match what
+   is attached" needs every id to keep the type it was created for, however long the stream has lived. *)
+From V Require Import C05Cid C05CidProofs.
+
+Theorem C05_consumer_id_keeps_its_type : forall t seed, (t = 0 \/ t = 1) -> 0 <= seed < 4294967295 ->
+  cid_ok t seed (cid_model t seed) = true.
+Proof. exact cid_model_ok. Qed.
+Print Assumptions C05_consumer_id_keeps_its_type.
+
+(* for every number of consumers a stream ever had: all ids of the run carry the right type and a sequence in
+   [1, 2^30 - 1) *)
+Theorem C05_consumer_ids_of_any_run : forall t k seed, (t = 0 \/ t = 1) -> 0 <= seed < 4294967295 ->
+  Forall (fun id => cid_type id = t /\ 1 <= cid_seq id < 1073741823) (cid_run t k seed).
+Proof. exact cid_run_types. Qed.
+Print Assumptions C05_consumer_ids_of_any_run.
+
+Theorem C05_cid_wide_wrap_refuted : exists seed, 0 <= seed < 4294967295 /\
+  let l := (seed + 1) mod 4294967296 in
+  cid_type ((0 * 1073741824 + (if 2147483647 <=? l then 1 else l)) mod 4294967296) <> 0.
+Proof. exact cid_wide_wrap_refuted. Qed.
+Print Assumptions C05_cid_wide_wrap_refuted.
+
+Example C05_cid_nonvacuous :
+  cid_model 0 1073741821 = (0, 1073741822, 1073741822) /\ cid_model 1 1073741822 = (1, 1, 1) /\
+  cid_model 0 5 = (0, 6, 6).
+Proof. vm_compute. repeat split. Qed.
